@@ -1,6 +1,6 @@
 From Coq Require Import Sorting.Sorted.
 From Stam Require Import Base.Tac Model.Offset Model.Store Model.StoreObs Spec.StoreSpec
-     Proofs.StoreScan Proofs.StoreInv Proofs.StoreDataDef Proofs.StoreRemove Proofs.StoreData Proofs.StoreStable Model.Compress Proofs.Compress Proofs.StoreSel Model.SubOrder Proofs.SubOrder Model.SubOrderArms Gen.SubOrderTable Proofs.AgreeSubOrder Model.Forward Proofs.Forward Props.C01.
+     Proofs.StoreScan Proofs.StoreInv Proofs.StoreDataDef Proofs.StoreRemove Proofs.StoreData Proofs.StoreStable Model.Compress Proofs.Compress Proofs.StoreSel Model.SubOrder Proofs.SubOrder Model.SubOrderArms Gen.SubOrderTable Proofs.AgreeSubOrder Model.Forward Proofs.Forward Model.Adaptors Proofs.Adaptors Props.C01.
 From Stam Require Proofs.ValidateProtect.
 Check (C01_index_invariant : forall ops, Inv (run ops)).
 Check (C01_textselection_annotations : forall ops r t, m_ts_anns (run ops) r t = s_ts_anns (run ops) r t).
@@ -53,3 +53,8 @@ Print Assumptions C01_code_comparator_is_total.
 Print Assumptions C01_counting_shortcuts.
 Print Assumptions C01_target_walk_terminates.
 Print Assumptions C01_target_resources_are_the_closure.
+Check (C01_adaptor_is_exact_union : forall f l y,
+  (In y (un f l) <-> exists it, In it l /\ In y (f it)) /\ StronglySorted lt (un f l)).
+Print Assumptions C01_adaptor_is_exact_union.
+Print Assumptions C01_adaptors_index_is_scan.
+Print Assumptions C01_dataset_adaptors_index_is_scan.
